@@ -450,9 +450,9 @@ func ReadElement(r io.Reader, element interface{}) error {
 			return err
 		}
 
-		if b[0] == 1 {
-			*e = true
-		}
+		// Assign in both cases, so that a target that is reused does
+		// not keep an earlier true.
+		*e = b[0] == 1
 
 	case *NodeAlias:
 		var a [32]byte
